@@ -27,6 +27,7 @@ var (
 	ErrSeekFail           = errors.New("failed to seek properly")
 	ErrUnrecognizedWhence = errors.New("unrecognized whence")
 	ErrNotUnixfs          = errors.New("dagmodifier only supports unixfs nodes (proto or raw)")
+	ErrNegativeOffset     = errors.New("negative offset or size")
 )
 
 // 2MB
@@ -90,6 +91,9 @@ func NewDagModifier(ctx context.Context, from ipld.Node, serv ipld.DAGService, s
 
 // WriteAt will modify a dag file in place
 func (dm *DagModifier) WriteAt(b []byte, offset int64) (int, error) {
+	if offset < 0 {
+		return 0, ErrNegativeOffset
+	}
 	// TODO: this is currently VERY inefficient
 	// each write that happens at an offset other than the current one causes a
 	// flush to disk, and dag rewrite
@@ -819,6 +823,9 @@ func (dm *DagModifier) Seek(offset int64, whence int) (int64, error) {
 // Truncate truncates the current Node to 'size' and replaces it with the
 // new one.
 func (dm *DagModifier) Truncate(size int64) error {
+	if size < 0 {
+		return ErrNegativeOffset
+	}
 	err := dm.Sync()
 	if err != nil {
 		return err
